@@ -208,26 +208,25 @@ func (c *WSClient) connect() error {
 		return err
 	}
 
-	c.session = c.ConnectionFactory.NewSession(connection)
+	session := c.ConnectionFactory.NewSession(connection)
+	c.session = session
 
 	go func() {
-		// There is a race condition where session is set to nil before
-		// Listen is called. This check resolves segfaults during tests,
-		// but there's still a gap where session can be nullified before
-		// Listen is invoked. The odds of that happening outside of tests
-		// is extremely small; e.g., who will call Dis/Reconnect immediately
-		// after calling Connect?
-		if c.Session() == nil {
-			return
-		}
-
-		// Starts the async read. If there is a read error, it is set so that
-		// it is returned the next time Send is called. That should be
-		// sufficient for most cases where the client cares only about sending.
-		// If the client really cares about handling reads, they will define a
-		// custom ReadHandler that will receive the error synchronously.
-		if err := c.session.Connection.Listen(); err != nil {
-			c.setErr(err)
+		// Starts the async read on the session created above (not on whatever
+		// c.session points to by the time this goroutine runs). If there is a
+		// read error, it is set so that it is returned the next time Send is
+		// called. That should be sufficient for most cases where the client
+		// cares only about sending. If the client really cares about handling
+		// reads, they will define a custom ReadHandler that will receive the
+		// error synchronously.
+		if err := session.Connection.Listen(); err != nil {
+			// the error belongs to this session: do not let the reader of a
+			// session that was replaced meanwhile poison its successor
+			c.sessionLock.RLock()
+			if c.session == session {
+				c.setErr(err)
+			}
+			c.sessionLock.RUnlock()
 		}
 	}()
 
@@ -308,7 +307,7 @@ func (c *WSClient) Send(e protocol.ChunkEncoder) error {
 	bytesData := rawMessageData.Bytes()
 	// Write function does not accurately return the number of bytes written
 	// so it would be ineffective to compare
-	_, err = c.session.Connection.Write(bytesData)
+	_, err = session.Connection.Write(bytesData)
 
 	return err
 }
